@@ -181,6 +181,22 @@ fn summarize(errs: &[midnight_proofs::dev::VerifyFailure]) -> String {
     s.join(" | ")
 }
 
+/// Cell kinds (region name, column, offset) of one traced honest synthesis.
+pub fn trace_kinds<C: FsCase>(case: &C, k: u32) -> Option<Vec<(String, Vec<u64>)>> {
+    LOG.with(|e| *e.borrow_mut() = Log::default());
+    verif::set_plan(vec![]);
+    verif::set_tracing(true);
+    let circuit = FsCircuit(case.clone());
+    let r = catch(|| MockProver::run(k, &circuit, vec![vec![], vec![]]));
+    let (names, trace) = verif::take_trace();
+    verif::reset();
+    LOG.with(|e| *e.borrow_mut() = Log::default());
+    match r {
+        Ok(Ok(_)) => Some(vgad::kinds_of_trace(&names, &trace)),
+        _ => None,
+    }
+}
+
 pub fn run_once<C: FsCase>(case: &C, k: u32, plan: Vec<(u64, Fault, Mode)>, keep_prover: bool) -> FsRun {
     LOG.with(|e| *e.borrow_mut() = Log::default());
     verif::set_plan(plan);
